@@ -662,6 +662,12 @@ static void worker(int w, int W, uint64_t start)
     shape_families();
     value_families();
     corpus();
+    {   /* sibling family: every pair and triple of small sibling subtrees */
+        static vf_gen gs;
+        memset(&gs, 0, sizeof gs);
+        gs.cb = on_doc;
+        vf_sibling_run(&gs, 2);
+    }
     static const int cls[] = { LC_INT8, LC_NEG16, LC_INT32, LC_NEG64, LC_INTMIN, LC_STR, LC_STR0, LC_STRNUL, LC_STR128, LC_BYT, LC_BYT0, LC_DBL, LC_DBLBIG, LC_TRUE, LC_FALSE, LC_OBJ, LC_ARR };
     static const vf_name names[] = { { (const uint8_t *) "", 0 }, { (const uint8_t *) "a", 1 }, { (const uint8_t *) "a\0b", 3 }, { (const uint8_t *) "a\0c", 3 }, { (const uint8_t *) "temp_max", 8 }, { (const uint8_t *) "temp_min", 8 }, { (const uint8_t *) "\x80\xff", 2 } };
     static vf_gen g;
